@@ -876,6 +876,10 @@ fn plan_base(prop: &str) -> Vec<Item> {
             v.push(it("pipe_out", "pool=1,n=1,d=2,pat=0,sinpoll=1", Some(2), 3));
             v.push(it("pipe_out", "pool=1,n=2,d=1,pat=1,syield=2", Some(2), 3));
             v.push(it("pipe_out", "pool=1,n=2,d=2,pat=0,syield=1", Some(2), 3));
+            // the depth is changed by the consumer after its first read (raised, lowered)
+            v.push(it("pipe_out", "pool=1,n=4,d=1,pat=0,d2=3", Some(2), 3));
+            v.push(it("pipe_out", "pool=1,n=4,d=3,pat=0,d2=1", Some(2), 3));
+            v.push(it("pipe_out", "pool=1,n=3,d=1,pat=2,d2=2", Some(1), 2));
             v.push(it("pipe_partial", "pool=1,d=3,r=1,sinpoll=1", Some(1), 2));
             // the pipe's producer is the task that awaits a future_sync on the same Desync (no pool thread); yielding processing
             for (n, y) in [(1, 1), (2, 1), (2, 2), (3, 1)] {
